@@ -395,6 +395,61 @@ theorem all_sign_directly_accepts (env : Env) (hv : env.valid "" = false)
     simp only [Bool.and_eq_true] at hk
     simp [Spec.covered, hk.1, hk.2]
 
+/-! ### the decision looks at the signers as a set, and more signatures never hurt -/
+
+theorem covered_mono (env : Env) (mt : MsgType) (s1 s2 : List Addr) (hsub : ∀ x ∈ s1, x ∈ s2) (a : Addr)
+    (h : Spec.covered env mt s1 a = true) : Spec.covered env mt s2 a = true := by
+  simp only [Spec.covered, Spec.signsDirectly, Spec.signsViaAuthz, Bool.or_eq_true, Bool.and_eq_true,
+    List.any_eq_true, List.contains_eq_mem, decide_eq_true_eq] at h ⊢
+  rcases h with ⟨h1, h2⟩ | ⟨x, hx, hauth⟩
+  · exact Or.inl ⟨h1, hsub a h2⟩
+  · exact Or.inr ⟨x, hsub x hx, hauth⟩
+
+/-- Signature requirements are monotone in the signer set: whatever is satisfied by `s1` is
+satisfied by any signer list containing it. -/
+theorem withPartiesOk_mono (env : Env) (mt : MsgType) (req avail : List Party) (roles : List Role)
+    (s1 s2 : List Addr) (hsub : ∀ x ∈ s1, x ∈ s2)
+    (h : Spec.withPartiesOk env mt req avail roles s1 = true) :
+    Spec.withPartiesOk env mt req avail roles s2 = true := by
+  simp only [Spec.withPartiesOk, Bool.and_eq_true] at h ⊢
+  refine ⟨⟨?_, ?_⟩, h.2⟩
+  · rw [requiredCovered_iff] at h ⊢
+    exact fun r hr ho => covered_mono env mt s1 s2 hsub _ (h.1.1 r hr ho)
+  · have h2 := h.1.2
+    unfold Spec.rolesCovered at h2 ⊢
+    rw [List.all_eq_true] at h2 ⊢
+    intro r hr
+    have := h2 r hr
+    simp only [decide_eq_true_eq] at this ⊢
+    refine Nat.le_trans this ?_
+    unfold Spec.coveredWithRole
+    rw [← List.countP_eq_length_filter, ← List.countP_eq_length_filter]
+    apply List.countP_mono_left
+    intro k _ hk
+    simp only [Bool.and_eq_true] at hk ⊢
+    exact ⟨hk.1, covered_mono env mt s1 s2 hsub _ hk.2⟩
+
+/-- "More signatures never hurt": when no smart contract signs, a write accepted with signers
+`s1` is accepted with any signer list that contains them (in any order, with repeats). -/
+theorem more_signers_never_hurt (env : Env) (hv : env.valid "" = false)
+    (mt : MsgType) (req avail : List Party) (roles : List Role) (s1 s2 : List Addr)
+    (hsub : ∀ x ∈ s1, x ∈ s2) (hnc1 : NoContracts env s1) (hnc2 : NoContracts env s2)
+    (h : Accepts (validateSignersWithParties env mt req avail roles s1)) :
+    Accepts (validateSignersWithParties env mt req avail roles s2) := by
+  rw [validateSignersWithParties_accepts_iff_spec env hv mt req avail roles _ hnc1] at h
+  rw [validateSignersWithParties_accepts_iff_spec env hv mt req avail roles _ hnc2]
+  exact withPartiesOk_mono env mt req avail roles s1 s2 hsub h
+
+/-- The order (and multiplicity) of ordinary signers does not matter. -/
+theorem signer_order_irrelevant (env : Env) (hv : env.valid "" = false)
+    (mt : MsgType) (req avail : List Party) (roles : List Role) (s1 s2 : List Addr)
+    (hsame : ∀ x, x ∈ s1 ↔ x ∈ s2) (hnc : NoContracts env s1) :
+    Accepts (validateSignersWithParties env mt req avail roles s1) ↔
+      Accepts (validateSignersWithParties env mt req avail roles s2) := by
+  have hnc2 : NoContracts env s2 := fun s hs => hnc s ((hsame s).mpr hs)
+  exact ⟨more_signers_never_hurt env hv mt req avail roles s1 s2 (fun x hx => (hsame x).mp hx) hnc hnc2,
+    more_signers_never_hurt env hv mt req avail roles s2 s1 (fun x hx => (hsame x).mpr hx) hnc2 hnc⟩
+
 /-! ### without parties (no party rollup) -/
 
 /-- `ValidateSignersWithoutParties` accepts ⇔ every listed address is covered and the
